@@ -225,6 +225,27 @@ def cases(modules):
                 want = "raise:" + type(e).__name__
             enc_l = lambda l: ",".join("%s:%s:%s" % (q(a), q(b), q(c)) for a, b, c in l) or "-"
             out.append(("git.GitStore.iter_changes", "ic %s %s" % (enc_l(olds), enc_l(news)), want, (olds, news)))
+    if "Multiget" in modules:
+        import random
+        from xandikos.webdav import _get_resources_by_hrefs, Backend
+        rng = random.Random(5)
+        q = lambda s: urllib.parse.quote(s, safe="")
+
+        class B(Backend):
+            def get_resource(self, relpath):
+                return None if "missing" in relpath else relpath
+        pool = ["/dav/a.ics", "/dav/a.ics", "/dav/b c.ics", "/dav", "/dav/", "/david/a.ics", "/dav//a.ics", "/x", "", "a.ics",
+                "/dav/missing.ics", "/dav/sub/missing/x", "/dav/é.ics", "/", "//dav/a.ics"]
+        for _ in range(300):
+            script = rng.choice(["/dav", "/dav/", "", "/", "/d"])
+            hrefs = [rng.choice(pool) for _ in range(rng.randint(0, 7))]
+            try:
+                rows = list(_get_resources_by_hrefs(B(), {"SCRIPT_NAME": script}, hrefs))
+                want = "=" + ",".join("%s:%s" % (q(h), "~" if r is None else q(r)) for h, r in rows)
+            except Exception as e:   # noqa: BLE001
+                want = "raise:" + type(e).__name__
+            out.append(("webdav._get_resources_by_hrefs", "mg %s %s" % (enc(script), " ".join(enc(h) for h in hrefs)), want,
+                        (script, hrefs)))
     if "Gates" in modules:
         import ast
         import translate
@@ -271,6 +292,23 @@ def cases(modules):
     return out
 
 
+LISTS = {"icalendar._unescape_text": 1, "git.GitStore.iter_changes": 4, "webdav._get_resources_by_hrefs": 2}
+
+
+def _canon(fn, text):
+    if text == "~":
+        return None
+    if not text.startswith("="):
+        return text
+    if fn in LISTS:
+        if LISTS[fn] == 1:
+            return [dec("=" + x) for x in text[1:].split(",")]
+        if text == "=":
+            return []
+        return [[None if y == "~" else dec("=" + y) for y in row.split(":")] for row in text[1:].split(",")]
+    return dec(text)
+
+
 def validate(chk, modules):
     """Run the grids; record counts in the evidence and disagreements as broken obligations."""
     ok, out = lake_build(["xgdriver"])
@@ -294,19 +332,14 @@ def validate(chk, modules):
         kind = want if want in ("0", "1", "~") or want.startswith("raise:") else "value"
         dist.setdefault(fn, {}).setdefault(kind, 0)
         dist[fn][kind] += 1
-        # compare decoded texts (the two sides may percent-encode differently)
-        same = (g == want) or (g[:1] in "=~" and want[:1] in "=~" and
-                               [dec("=" + x) for x in g[1:].split(",")] == [dec("=" + x) for x in want[1:].split(",")]
-                               if fn in ("icalendar._unescape_text", "git.GitStore.iter_changes") and ":" not in g + want else
-                               [[dec("=" + y) if y != "~" else None for y in x.split(":")] for x in g[1:].split(",")] ==
-                               [[dec("=" + y) if y != "~" else None for y in x.split(":")] for x in want[1:].split(",")]
-                               if fn == "git.GitStore.iter_changes" else
-                               g[:1] in "=~" and want[:1] in "=~" and dec(g) == dec(want))
+        # compare decoded values (the two sides may percent-encode differently)
+        same = (g == want) or _canon(fn, g) == _canon(fn, want)
         if not same:
             bad.setdefault(fn, []).append({"args": args, "python": want, "generated": g})
-    info["status"] = "ok" if not bad else "disagreements"
-    info["cases"] = per
-    info["outcome_distribution"] = dist
+    if bad or info.get("status") in (None, "ok"):
+        info["status"] = "ok" if not bad else "disagreements"
+    info.setdefault("cases", {}).update(per)
+    info.setdefault("outcome_distribution", {}).update(dist)
     chk.count("translator_validation_cases", len(cs))
     for fn, items in bad.items():
         chk.broke("translator validation " + fn,
@@ -325,7 +358,7 @@ def regen(chk, modules):
     for m in modules:
         text, err = res[m]
         funcs = ", ".join(s["func"] for s in translate.SPECS + translate.SCAN_SPECS if s["module"] == m) or \
-            {"Wellknown": "WellknownRedirector.__call__, WELLKNOWN_DAV_PATHS", "IterChanges": "GitStore.iter_changes",
+            {"Wellknown": "WellknownRedirector.__call__, WELLKNOWN_DAV_PATHS", "IterChanges": "GitStore.iter_changes", "Multiget": "_get_resources_by_hrefs",
              "Gates": "precondition gates of PutMethod.handle, DeleteMethod.handle, _do_get"}.get(m, m)
         tr[funcs] = "ok" if text else "unavailable: " + err
         if err:
